@@ -638,7 +638,8 @@ package cache
 //@   loop 0: invariant [survivors] forall k any :: old(ds.m.dom[k]) && ds.m.dom[k] ==> ds.m.vals[k] == old(ds.m.vals[k])
 //@   loop 0: invariant [others] forall k any :: !typeis(k, "string") ==> ds.m.dom[k] == old(ds.m.dom[k])
 
-// the dispatcher options built from the configuration: names, sizes and store URLs are copied as they are
+// the dispatcher options built from the configuration: names, sizes and store URLs are copied as they are;
+// the hit-for-pass period is the configured duration text in whole seconds (time.ParseDuration, Seconds, truncation)
 //@ func convertConfigs(configs []config.CacheConfig) (opts []DispatcherOption)
 //@   nopanic
 //@   modifies nothing
@@ -647,6 +648,8 @@ package cache
 //@   loop 0: modifies nothing
 //@   loop 0: invariant [idx] -1 <= $idx && $idx < len(configs) && len(opts) == $idx + 1 && fresh(opts)
 //@   loop 0: invariant [fields] forall i int :: 0 <= i && i <= $idx ==> opts[i].Name == configs[i].Name && opts[i].Size == configs[i].Size && opts[i].Store == configs[i].Store
+//@   ensures [hfp] forall i int :: 0 <= i && i < len(configs) ==> opts[i].HitForPass == f2i(durSecs(parseDur(configs[i].HitForPass)))
+//@   loop 0: invariant [hfp] forall i int :: 0 <= i && i <= $idx ==> opts[i].HitForPass == f2i(durSecs(parseDur(configs[i].HitForPass)))
 
 // applying the cache section of a configuration: afterwards exactly the configured cache names are registered
 //@ func ResetDispatchers(configs []config.CacheConfig)
